@@ -5,8 +5,7 @@ from . import c03
 
 PROP = 'C02'
 QUOTAS = {
-    'quick': {'cheap': 4, 'medium': 4, 'heavy': 1, 'F1:cheap': 16, 'F2:medium': 12, 'F4:medium': 8, 'R:cheap': 6,
-              'R:medium': 8, 'R:heavy': 1},
+    'quick': {'cheap': 2, 'medium': 3, 'heavy': 1, 'F1:cheap': 10, 'F2:medium': 10, 'F4:medium': 6, 'R:cheap': 4, 'R:medium': 6, 'R:heavy': 1},
     'thorough': {'cheap': 150, 'medium': 90, 'heavy': 16, 'F1:cheap': 400, 'F2:medium': 140, 'F4:medium': 60,
                  'R:cheap': 60, 'R:medium': 70, 'R:heavy': 16},
 }
